@@ -19,7 +19,7 @@
     Not covered by a theorem: the rendering of errors and lexer states (Display / Debug), which the
     correspondence run exercises under catch_unwind on every returned and collected error and every
     lexer state; panics inside dependencies; stack exhaustion. *)
-From Tephra Require Import MetricsSpec MetricsFacts CLexer LexerFacts Run Peg RunCore RunTotal RunBracket RunSafe RunTerm Source SourceFacts Render RenderTotal.
+From Tephra Require Import MetricsSpec MetricsFacts CLexer LexerFacts Run Peg RunCore RunTotal RunBracket RunSafe RunTerm Source SourceFacts Render RenderTotal RenderColor RenderColorFacts.
 
 Theorem C01_lexer_operations_never_panic :
   forall m, 1 <= tabw m -> forall t, wf_text t ->
@@ -140,3 +140,12 @@ Theorem C01_report_rendering_total :
   exists cells, cd_render (mksource (ctext m us) name m off) (mkcd msg ty code sds) = Ok cells.
 Proof. exact cd_render_total. Qed.
 Print Assumptions C01_report_rendering_total.
+
+(** the colour path of the same report (RenderColor.v: the [color_enabled] branches) never fails either *)
+Theorem C01_coloured_report_rendering_total :
+  forall m, 1 <= tabw m -> forall us, wf_units m us -> forall off name msg ty code sds,
+  Forall (fun sd => exists i j named hls, i <= j /\ j <= length us /\
+            sd_new (mksource (ctext m us) name m off) (mkspan (gpos m us off i) (gpos m us off j)) named hls = Ok sd) sds ->
+  exists cells, cd_render_c (mksource (ctext m us) name m off) (mkcd msg ty code sds) = Ok cells.
+Proof. exact cd_render_c_total. Qed.
+Print Assumptions C01_coloured_report_rendering_total.
